@@ -224,6 +224,10 @@ def c13_jobs(tier):
             if mode == 2 and not base:
                 continue
             jobs.append(job(MSG, "HSkipUnsupported", [-1, mode, L] + base + [0]))
+    # long messages: 1024-octet insertions into a message that already carries 1000 / 3000 data octets
+    for big in ((2000,) if q else (2000, 4000)):
+        for mode in (0, 1):
+            jobs.append(job(MSG, "HSkipUnsupported", [big, mode, 1024, 37, 0], wall_ms=600000))
     # in front of the Encrypted payload of a protected message (through DecodeDecrypt)
     for s in ([0, 4, 8] if q else range(9)):
         for role in (0, 1):
@@ -491,6 +495,9 @@ def c17_jobs(tier):
         for j in (3, 64):
             jobs.append(job(SEC, "HChildKeys", [p, 1, p, 16, j]))
         jobs.append(job(SEC, "HChildKeys", [p, 2, (p + 1) % 4, 16, 2003]))
+        for e in range(3):
+            for i in range(4):
+                jobs.append(job(SEC, "HChildKeys", [p, e, i, 8, 7]))
     # concrete long histories (the property's sequences of up to 64 operations)
     for i, s_ in enumerate(range(9) if not q else (0, 4, 8)):
         jobs.append(job(ROOT, "HReuseSequence", [s_, i % 2, 64 if i % 3 == 0 or not q else 34, 0], wall_ms=600000))
